@@ -341,7 +341,7 @@ def order_fn(kind):
 
 
 # ------------------------------------------------------------------ E. pickle / model layer
-def pickle_fn(parent_kind):
+def pickle_fn(parent_kind, with_variants=False):
     def fn(s0, l0, g1, l1, w):
         s0, l0, g1, l1, w = concretize(s0, l0, g1, l1, w)
         with untraced():
@@ -351,13 +351,24 @@ def pickle_fn(parent_kind):
                 par = chunk_parent(w, 24, seq=(GENOME40 * 2)[w: w + 24])
             elif parent_kind == "chrom":
                 par = chrom_parent(GENOME40)
+            elif parent_kind == "chrom_noid":
+                # a chromosome sequence that was never given a name
+                from inscripta.biocantor.location.location_impl import SingleInterval
+                from inscripta.biocantor.parent import Parent, SequenceType
+                from inscripta.biocantor.sequence import Alphabet, Sequence
+
+                par = Parent(sequence=Sequence(GENOME40, Alphabet.NT_STRICT, type=SequenceType.CHROMOSOME), location=SingleInterval(0, 40, PLUS))
             else:
                 par = None
             ex = [(s0, s0 + l0), (s0 + l0 + g1, s0 + l0 + g1 + l1)]
             g = GeneInterval([_tx(ex, PLUS, cds=[ex[1]], par=par, q=Q)], gene_id="gid", parent_or_seq_chunk_parent=par)
             fc = FeatureIntervalCollection([_feat(ex[:1], MINUS, par=par, q=Q)], parent_or_seq_chunk_parent=par)
-            coll = AnnotationCollection(feature_collections=[fc], genes=[g], name="coll", sequence_name="chr1", qualifiers=Q,
-                                        parent_or_seq_chunk_parent=par)
+            vcs = None
+            if with_variants:
+                vcs = [VariantIntervalCollection([VariantInterval(ex[0][0], ex[0][0] + 1, "A", "SNV", parent_or_seq_chunk_parent=par)], variant_collection_id="vc",
+                                                 parent_or_seq_chunk_parent=par)]
+            coll = AnnotationCollection(feature_collections=[fc], genes=[g], variant_collections=vcs, name="coll", sequence_name="chr1" if parent_kind != "chrom_noid" else None,
+                                        qualifiers=Q, parent_or_seq_chunk_parent=par)
             back = pickle.loads(pickle.dumps(coll))
             ok = back.to_dict() == coll.to_dict() and back.guid == coll.guid and back.start == coll.start and back.end == coll.end
             ok = ok and [c.guid for c in back.iter_children()] == [c.guid for c in coll.iter_children()]
@@ -381,7 +392,7 @@ def models_importable():
         return False
 
 
-def schema_fn():
+def schema_fn(with_variants=False):
     def fn(s0, l0, g1, l1):
         s0, l0, g1, l1 = concretize(s0, l0, g1, l1)
         with untraced():
@@ -392,10 +403,16 @@ def schema_fn():
             ex = [(s0, s0 + l0), (s0 + l0 + g1, s0 + l0 + g1 + l1)]
             g = GeneInterval([_tx(ex, MINUS, cds=[ex[0]], q=Q)], gene_id="gid", gene_symbol="gs", locus_tag="lt", qualifiers=Q)
             fc = FeatureIntervalCollection([_feat(ex, PLUS, q=Q)], feature_collection_name="fcn")
-            coll = AnnotationCollection(feature_collections=[fc], genes=[g], name="coll", sequence_name="chr1", qualifiers=Q)
+            vcs = None
+            if with_variants:
+                vcs = [VariantIntervalCollection([VariantInterval(ex[0][0], ex[0][0] + 1, "A", "SNV"), VariantInterval(ex[1][0], ex[1][1], "", "deletion", phase_block=2)],
+                                                 variant_collection_id="vc", variant_collection_name="vn", qualifiers=Q)]
+            coll = AnnotationCollection(feature_collections=[fc], genes=[g], variant_collections=vcs, name="coll", sequence_name="chr1", qualifiers=Q)
             d = coll.to_dict()
             text = json.dumps(d, default=str)
             model = AnnotationCollectionModel.Schema().load(json.loads(text))
+            if with_variants and AnnotationCollectionModel.from_annotation_collection(coll).to_annotation_collection().to_dict() != d:
+                return False
             back = model.to_annotation_collection()
             d2 = back.to_dict()
             dumped = AnnotationCollectionModel.Schema().dump(model)
@@ -458,7 +475,20 @@ def obligations(tier):
                        budget=600, cost=40,
                        desc="pickle round trip of an AnnotationCollection (%s parent): equal dictionary form, guid, bounds, children, sequence" % pk,
                        bounds="1 gene + 1 feature collection, realised small coordinates", examples=[dict(s0=3, l0=2, g1=1, l1=4, w=1)]))
+    for pk, wv in (("chrom_noid", False), ("chrom", True), ("none", True)):
+        out.append(Obl("pickle_%s%s" % (pk, "_variants" if wv else ""), pickle_fn(pk, wv), dict(s0=int, l0=int, g1=int, l1=int, w=int),
+                       lambda s0, l0, g1, l1, w: w == 0 and 0 <= s0 and s0 <= 4 and 1 <= l0 and l0 <= 3 and 1 <= g1 and g1 <= 2 and 3 <= l1 and l1 <= 5,
+                       budget=600, cost=40,
+                       desc="pickle round trip of an AnnotationCollection (%s parent%s): equal dictionary form, guid, bounds, children, sequence" % (
+                           "un-named chromosome" if pk == "chrom_noid" else pk, ", with a variant collection" if wv else ""),
+                       bounds="1 gene + 1 feature collection%s, realised small coordinates" % (" + 1 variant collection" if wv else ""), examples=[dict(s0=3, l0=2, g1=1, l1=4, w=0)]))
     if models_importable():
+        out.append(Obl("schema_json_roundtrip_variants", schema_fn(True), dict(s0=int, l0=int, g1=int, l1=int),
+                       lambda s0, l0, g1, l1: 0 <= s0 and s0 <= 3 and 1 <= l0 and l0 <= 3 and 1 <= g1 and g1 <= 2 and 1 <= l1 and l1 <= 3,
+                       budget=600, cost=60,
+                       desc="collection WITH variants: to_dict -> JSON -> AnnotationCollectionModel.Schema().load / from_annotation_collection -> to_annotation_collection "
+                            "reproduces dictionary form and guids",
+                       bounds="1 gene + 1 feature collection + 1 variant collection (SNV + deletion), realised small coordinates", examples=[dict(s0=1, l0=2, g1=1, l1=3)]))
         out.append(Obl("schema_json_roundtrip", schema_fn(), dict(s0=int, l0=int, g1=int, l1=int),
                        lambda s0, l0, g1, l1: 0 <= s0 and s0 <= 3 and 1 <= l0 and l0 <= 3 and 1 <= g1 and g1 <= 2 and 1 <= l1 and l1 <= 3,
                        budget=600, cost=60,
